@@ -312,10 +312,10 @@ PROPS["C03"] = dict(
         dict(id="C03.a", harness="C03_fastcgi_out.cpp", entry="h_c03a_advance", ctors=False, clang_flags=["-fno-inline"],
              drop=["11buffer_implIPKcE3addES3_m"], roots=["verif_buffer_add"], models=["stubs_c03.c"], replay="generated", max_alloc=128, cbmc_defs=["VERIF_NO_CHK"],
              desc="booster::aio::details::advance(buf,n) (pending output after a short write) == the bytes of buf after the first n, chunk by chunk",
-             tiers=T(quick=dict(split=[[0, 1, 2, 3]], unwind=6, unwindset={"verif_memmove.0": 70, "verif_memmove.1": 70, "verif_memcpy.0": 70, "verif_memset.0": 70}, timeout=900, bounds="gather lists of 0..3 chunks, every chunk size 1..2^40, every n (64 bit)"))),
+             tiers=T(quick=dict(split=[[0, 1, 2, 3]], unwind=6, unwindset={"verif_memmove.0": 70, "verif_memmove.1": 70, "verif_memcpy.0": 70, "verif_memset.0": 70}, timeout=900, bounds="gather lists of 0..3 chunks, every chunk size 1..2^40 and address, every n (64 bit)"))),
         dict(id="C03.b", harness="C03_fastcgi_out.cpp", entry="h_c03b_gather", ctors=False, clang_flags=["-fno-inline"], max_alloc=128, cbmc_defs=["VERIF_NO_CHK"],
              desc="booster::aio::buffer_impl add/get/bytes_count (real code incl. vector growth): the gather list is exactly the non-empty chunks added, in order",
-             tiers=T(quick=dict(split=[[0, 1, 2, 3]], unwind=6, unwindset={"verif_memmove.0": 70, "verif_memmove.1": 70, "verif_memcpy.0": 70, "verif_memset.0": 70}, timeout=900, bounds="0..3 add() calls, every size 0..2^40"))),
+             tiers=T(quick=dict(split=[[0, 1, 2, 3]], unwind=6, unwindset={"verif_memmove.0": 70, "verif_memmove.1": 70, "verif_memcpy.0": 70, "verif_memset.0": 70}, timeout=900, bounds="0..3 add() calls, every size 0..2^40, every chunk address (offsets 0..2^44 from one base: adjacent, overlapping, equal, out of order)"))),
     ],
 )
 
@@ -348,6 +348,10 @@ PROPS["C04"] = dict(
         dict(id="C04.e", harness="C04_xss.cpp", entry="h_c04e_uri", ctors=False,
              desc="uri_parser::parse: accepted => only RFC 3986 characters, '&' only as &amp;/&apos;, and a leading scheme: is exactly the range given to the scheme check (never accepted as relative)",
              tiers=T(quick=dict(split=[[0, 1, 2]], unwind="p0+1", unwindset={"X_strlen.0": 8, "X_memcmp.0": 8}, timeout=900, bounds="every attribute value of length 0..2 (the recursive-descent parser costs 5 GB at length 2 and > 14 GB at 3)"))),
+        dict(id="C04.e2", harness="C04_xss.cpp", entry="h_c04e_uri", ctors=False, cbmc_defs=["VERIF_NO_CHK"],
+             desc="uri_parser::parse: accepted => only RFC 3986 characters, '&' only as &amp;/&apos;, and a leading scheme: is exactly the range given to the scheme check (never accepted as relative)",
+             tiers=T(quick=dict(split=[[3, 4]], unwind="p0+1", unwindset={"X_strlen.0": 8, "X_memcmp.0": 8}, timeout=900, bounds="every attribute value of length 3..4; exact heap-size check off (functional claim only)"),
+                     thorough=dict(split=[[3, 4, 5]], unwind="p0+1", unwindset={"X_strlen.0": 8, "X_memcmp.0": 8}, timeout=3000, bounds="every attribute value of length 3..5; exact heap-size check off (functional claim only)"))),
     ],
 )
 
